@@ -455,7 +455,7 @@ Fixpoint is_assigned (id : pstr) (n : node) : res asg :=
                            | None => Raise IndexError
                            end
                          else scan ts' (S pos)
-                     | _ => Raise AttributeError          (* name.id on a non-Name target element *)
+                     | _ => scan ts' (S pos)
                      end
                  end) (field_list "elts" target) O
             else Ok AFalse
@@ -486,65 +486,79 @@ Definition is_format_call (call : node) : bool :=
 Definition is_starred_display (a : node) : bool :=
   is_cls "Starred" a && (is_cls "List" (field "value" a) || is_cls "Tuple" (field "value" a)).
 
+(* One unfolding of evaluate_var / evaluate_call, with [rec] standing for the recursive calls. *)
+Section XssStep.
+  Variable rec : xtask -> res bool.
+  Variable parent : node.
+
+  (* evaluate_var, "to" is a list: every element must be a string literal or a secure name *)
+  Fixpoint xss_all (ln : Z) (l : list node) : res bool :=
+    match l with
+    | [] => Ok true
+    | x :: l' =>
+        if is_Str x then xss_all ln l'
+        else if is_cls "Name" x then
+          do s <- rec (TVar (name_id x) ln);; if s then xss_all ln l' else Ok false
+        else Ok false
+    end.
+
+  (* evaluate_var: "for node in parent.body" with the running value of [secure] *)
+  Fixpoint xss_loop (id : pstr) (until : Z) (body : list node) (secure : bool) : res bool :=
+    match body with
+    | [] => Ok secure
+    | st :: rest =>
+        if Z.geb (node_line st) until then Ok secure
+        else
+          do to <- is_assigned id st;;
+          match to with
+          | AFalse => xss_loop id until rest secure
+          | ANode v =>
+              if is_Str v then xss_loop id until rest true
+              else if is_cls "Name" v then
+                do s <- rec (TVar (name_id v) (node_line v));; xss_loop id until rest s
+              else if is_cls "Call" v then
+                do s <- rec (TCall v);; xss_loop id until rest s
+              else Ok false
+          | AList [] => xss_loop id until rest secure
+          | AList l =>
+              do ok <- xss_all (node_line st) l;;
+              if ok then xss_loop id until rest true else Ok false
+          end
+    end.
+
+  (* evaluate_call: one sweep over the argument list; starred displays queue their elements *)
+  Fixpoint xss_args (ln : Z) (q pending : list node) : res bool :=
+    match q with
+    | [] => match pending with [] => Ok true | _ => rec (TArgs ln pending) end
+    | a :: q' =>
+        if is_Str a then xss_args ln q' pending
+        else if is_cls "Name" a then
+          do s <- rec (TVar (name_id a) ln);; if s then xss_args ln q' pending else Ok false
+        else if is_cls "Call" a then
+          do s <- rec (TCall a);; if s then xss_args ln q' pending else Ok false
+        else if is_starred_display a then xss_args ln q' (pending ++ field_list "elts" (field "value" a))
+        else Ok false
+    end.
+
+  Definition xss_step (t : xtask) : res bool :=
+    match t with
+    | TVar id until =>
+        if is_param parent id then Ok false
+        else xss_loop id until (field_list "body" parent) false
+    | TCall call =>
+        if is_format_call call
+        then rec (TArgs (node_line call) (field_list "args" call))
+        else Ok false
+    | TArgs ln queue => xss_args ln queue []
+    end.
+End XssStep.
+
 (* The recursion of django_xss is not structural (and not always terminating: see the report); the fuel
    bounds the recursion depth and running out of it is Python's RecursionError. *)
 Fixpoint xss_eval (fuel : nat) (parent : node) (t : xtask) : res bool :=
   match fuel with
   | O => Raise OtherError
-  | S f =>
-      match t with
-      | TVar id until =>
-          if is_param parent id then Ok false
-          else
-            (fix loop (body : list node) (secure : bool) : res bool :=
-               match body with
-               | [] => Ok secure
-               | st :: rest =>
-                   if Z.geb (node_line st) until then Ok secure
-                   else
-                     do to <- is_assigned id st;;
-                     match to with
-                     | AFalse => loop rest secure
-                     | ANode v =>
-                         if is_Str v then loop rest true
-                         else if is_cls "Name" v then
-                           do s <- xss_eval f parent (TVar (name_id v) (node_line v));; loop rest s
-                         else if is_cls "Call" v then
-                           do s <- xss_eval f parent (TCall v);; loop rest s
-                         else Ok false
-                     | AList [] => loop rest secure
-                     | AList l =>
-                         do ok <- (fix all (l : list node) : res bool :=
-                                     match l with
-                                     | [] => Ok true
-                                     | x :: l' =>
-                                         if is_Str x then all l'
-                                         else if is_cls "Name" x then
-                                           do s <- xss_eval f parent (TVar (name_id x) (node_line st));;
-                                           if s then all l' else Ok false
-                                         else Ok false
-                                     end) l;;
-                         if ok then loop rest true else Ok false
-                     end
-               end) (field_list "body" parent) false
-      | TCall call =>
-          if is_format_call call
-          then xss_eval f parent (TArgs (node_line call) (field_list "args" call))
-          else Ok false
-      | TArgs ln queue =>
-          (fix go (q pending : list node) : res bool :=
-             match q with
-             | [] => match pending with [] => Ok true | _ => xss_eval f parent (TArgs ln pending) end
-             | a :: q' =>
-                 if is_Str a then go q' pending
-                 else if is_cls "Name" a then
-                   do s <- xss_eval f parent (TVar (name_id a) ln);; if s then go q' pending else Ok false
-                 else if is_cls "Call" a then
-                   do s <- xss_eval f parent (TCall a);; if s then go q' pending else Ok false
-                 else if is_starred_display a then go q' (pending ++ field_list "elts" (field "value" a))
-                 else Ok false
-             end) queue []
-      end
+  | S f => xss_step (xss_eval f parent) parent t
   end.
 
 Definition xss_fuel (parent : node) : nat := S (3 * node_size parent).
